@@ -545,7 +545,22 @@ func oraclePollTiming(o *e2eOutcome, v vfn) {
 			// entry's size can lag behind the content that was hashed; then the
 			// descriptor is (hash of the new content, old size) and the receiver's
 			// validation sorts it out)
-			if qs := q.Sizes[name]; qs > 0 {
+			// The size of the version asked about is the size of the registered source
+			// version with that hash (since the hash/size mismatch of files that grow
+			// while they are hashed was repaired in /repo the sender only ever
+			// announces consistent pairs); the size carried by the poll's own record
+			// is what a wrong tracker would get wrong, so it is only the fallback.
+			truth := int64(-1)
+			o.w.regMu.Lock()
+			for _, ver := range o.w.registry[name] {
+				if ver.MD5 == hash {
+					truth = int64(len(ver.Data))
+				}
+			}
+			o.w.regMu.Unlock()
+			if truth > 0 {
+				size = truth
+			} else if qs := q.Sizes[name]; qs > 0 {
 				size = qs
 			}
 			if deliveredVersion(o, name, hash) && covered(rs) == 0 {
